@@ -4,12 +4,14 @@ use crate::scen::Registry;
 pub mod cluster;
 pub mod core_ds;
 pub mod kmeans;
+pub mod linear;
 pub mod reduce_prep;
 pub mod svm_trees;
 
 pub fn registry() -> Registry {
     let mut r = Registry::default();
     kmeans::register(&mut r);
+    linear::register(&mut r);
     core_ds::register(&mut r);
     cluster::register(&mut r);
     reduce_prep::register(&mut r);
